@@ -32,7 +32,7 @@ FAIL_KINDS = (InjectedError, InjectedKeyError, InjectedAttributeError)
 
 
 class CPSys:
-    def __init__(self, L, ntask, ninst, uselock, gsusp, failkind=0):
+    def __init__(self, L, ntask, ninst, uselock, gsusp, failkind=0, exitsusp=0):
         self.ntask, self.ninst, self.uselock, self.gsusp = ntask, ninst, uselock, gsusp
         self.acct = Accounting()
         self.trace = []
@@ -40,7 +40,9 @@ class CPSys:
         self.runs = 0
         self.fail_task = 0
         self.fail_exc = {}
+        self.thrown = {}
         self.fail_cls = FAIL_KINDS[failkind % len(FAIL_KINDS)]
+        self.exitsusp = exitsusp
         self.locks = []  # in creation order = placeholder order
         self.ph_ids = {}  # id(placeholder) -> model id, in order of discovery
         self.ph_keep = []
@@ -59,6 +61,8 @@ class CPSys:
 
             async def __aexit__(self, *exc):
                 self.holder = 0
+                if sys_.exitsusp:
+                    await Suspend(sys_.acct, ("lockexit", self.lid))
 
         async def getter(inst):
             t = sys_.current
@@ -128,6 +132,8 @@ class CPSys:
             if tag[0] == "lock":
                 self.pc[t] = "lockwait"
                 self.tph[t] = tag[1]
+            elif tag[0] == "lockexit":
+                self.pc[t] = "exiting"
             elif tag[0] == "getter":
                 self.pc[t] = "ingetter"
                 # the lock held by t (if any) tells which placeholder's getter runs
@@ -142,6 +148,7 @@ class CPSys:
         self.obj[t] = None
         self.tph[t] = 0
         if r[0] == "done":
+            self.thrown.pop(t, None)
             v = r[1]
             vid = v[1] if isinstance(v, tuple) and len(v) == 2 and v[0] == "val" else -1
             self.got[t] = vid
@@ -149,14 +156,15 @@ class CPSys:
         else:
             self.got[t] = 0
             exc = r[1]
-            expected = thrown if thrown is not None else self.fail_exc.get(t)
+            pending = self.thrown.pop(t, None)
+            expected = thrown if thrown is not None else pending or self.fail_exc.get(t)
             self.ev(e="err", t=t, same=exc is expected, what=type(exc).__name__)
 
     def can(self, a, t):
         return {"access": self.pc[t] == "idle", "await": self.pc[t] == "holding",
                 "grant": self.pc[t] == "lockwait" and not self._lock_held(self.tph[t]),
-                "tick": self.pc[t] == "ingetter", "fail": self.pc[t] == "ingetter",
-                "cancel": self.pc[t] in ("ingetter", "lockwait")}.get(a, True)
+                "tick": self.pc[t] == "ingetter", "fail": self.pc[t] == "ingetter", "exit": self.pc[t] == "exiting",
+                "cancel": self.pc[t] in ("ingetter", "lockwait", "exiting")}.get(a, True)
 
     def _lock_held(self, lid):
         return 0 < lid <= len(self.locks) and self.locks[lid - 1].holder != 0
@@ -173,7 +181,7 @@ class CPSys:
             task = Task(self.obj[t].__await__(), self.acct)
             self.task[t] = task
             self._after(t, task.step())
-        elif a in ("grant", "tick"):
+        elif a in ("grant", "tick", "exit"):
             self._after(t, self.task[t].step())
         elif a == "fail":
             self.fail_task = t
@@ -181,6 +189,7 @@ class CPSys:
             self.fail_task = 0
         elif a == "cancel":
             exc = Cancelled("cancel")
+            self.thrown[t] = exc          # it may only come out after a suspending lock release
             self._after(t, self.task[t].throw(exc), thrown=exc)
         elif a == "del":
             try:
@@ -213,6 +222,9 @@ class CPSys:
                 if self.pc[t] in ("ingetter", "foreign"):
                     self.apply("tick", t)
                     prog = True
+                elif self.pc[t] == "exiting":
+                    self.apply("exit", t)
+                    prog = True
                 elif self.pc[t] == "lockwait" and self.can("grant", t):
                     self.apply("grant", t)
                     prog = True
@@ -229,10 +241,10 @@ class CPSys:
         self.ev(e="quiesce", held=held, slots=slots, stuck=[t for t in self.pc if self.pc[t] != "idle"])
 
     def cfg(self):
-        return {"tasks": self.ntask, "insts": self.ninst, "lock": bool(self.uselock), "gsusp": self.gsusp}
+        return {"tasks": self.ntask, "insts": self.ninst, "lock": bool(self.uselock), "gsusp": self.gsusp, "exitsusp": bool(self.exitsusp)}
 
 
-def cfg_text(ntask, ninst, uselock, gsusp, maxdel, opsper, faults, edges=True):
+def cfg_text(ntask, ninst, uselock, gsusp, maxdel, opsper, faults, exitsusp=0, edges=True):
     b = lambda x: "TRUE" if x else "FALSE"  # noqa: E731
     return f"""CONSTANTS
   NTask = {ntask}
@@ -243,6 +255,7 @@ def cfg_text(ntask, ninst, uselock, gsusp, maxdel, opsper, faults, edges=True):
   OpsPer = {opsper}
   AllowFail = {b(faults)}
   AllowCancel = {b(faults)}
+  ExitSusp = {exitsusp}
   EdgeFile = "{'@OUT:edges.ndjson@' if edges else ''}"
 INIT Init
 NEXT Next
@@ -259,12 +272,13 @@ INVARIANT LockHolder
 
 # (NTask, NInst, UseLock, GSusp, MaxDel, OpsPer, faults)
 TIERS = {
+    # (NTask, NInst, UseLock, GSusp, MaxDel, OpsPer, faults[, ExitSusp])
     "mini": [(2, 1, True, 1, 1, 1, True), (2, 1, False, 1, 1, 2, True)],
     "quick": [(1, 2, True, 0, 2, 4, False), (1, 1, False, 0, 2, 5, False), (2, 1, True, 1, 1, 1, True), (3, 1, True, 1, 0, 1, False),
-              (2, 1, False, 1, 1, 2, True), (2, 2, True, 1, 0, 2, True), (1, 1, True, 1, 1, 3, True)],
+              (2, 1, False, 1, 1, 2, True), (2, 2, True, 1, 0, 2, True), (1, 1, True, 1, 1, 3, True), (2, 1, True, 1, 1, 1, True, 1), (3, 1, True, 0, 0, 1, False, 1)],
     "thorough": [(1, 2, True, 0, 3, 5, False), (1, 2, False, 0, 3, 5, False), (3, 1, True, 2, 1, 1, True), (3, 1, False, 1, 1, 1, True),
                  (4, 1, True, 1, 0, 1, True), (2, 2, True, 2, 1, 2, True), (3, 2, True, 1, 1, 1, True), (2, 1, True, 1, 2, 3, True),
-                 (2, 1, False, 2, 1, 2, True), (3, 1, True, 1, 1, 2, True)],
+                 (2, 1, False, 2, 1, 2, True), (3, 1, True, 1, 1, 2, True), (3, 1, True, 1, 1, 1, True, 1), (2, 2, True, 1, 0, 2, True, 1)],
 }
 
 
@@ -274,13 +288,15 @@ def norm(t, sysm):
     for j, h in enumerate(t["lk"], start=1):
         if j <= known:
             lk[j] = h
-    return {"slot": [list(x) for x in t["slot"]], "pc": list(t["pc"]), "got": list(t["got"]), "runs": t["runs"], "lk": lk}
+    return {"slot": [list(x) for x in t["slot"]], "pc": ["exiting" if x in ("exitfollow", "exitabort") else x for x in t["pc"]],
+            "got": list(t["got"]), "runs": t["runs"], "lk": lk}
 
 
 def replay_path(args):
-    (ntask, ninst, uselock, gsusp, _md, _ops, _f), path = args
+    (ntask, ninst, uselock, gsusp, _md, _ops, _f), path = args[0][:7], args[1]
+    exitsusp = args[0][7] if len(args[0]) > 7 else 0
     L = tm.load_lib()
-    s = CPSys(L, ntask, ninst, uselock, gsusp, failkind=len(path))
+    s = CPSys(L, ntask, ninst, uselock, gsusp, failkind=len(path), exitsusp=exitsusp)
     drift = None
     for j, e in enumerate(path):
         a, t, i = e["a"]
@@ -307,7 +323,7 @@ def random_run(args):
     seed, ntask, ninst, uselock, gsusp = args
     rnd = random.Random(seed)
     L = tm.load_lib()
-    s = CPSys(L, ntask, ninst, uselock, gsusp, failkind=seed)
+    s = CPSys(L, ntask, ninst, uselock, gsusp, failkind=seed, exitsusp=seed % 2 if uselock else 0)
     steps = []
     for _ in range(rnd.randint(6, 16 * ntask)):
         if rnd.random() < 0.06:
@@ -333,6 +349,9 @@ def random_run(args):
             elif rnd.random() < 0.1:
                 s.apply("cancel", t)
                 steps.append(["cancel", t, 0])
+        elif pc == "exiting":
+            s.apply("exit", t)
+            steps.append(["exit", t, 0])
         elif pc == "ingetter":
             a = rnd.choices(["tick", "fail", "cancel"], [12, 1, 1])[0]
             s.apply(a, t)
@@ -398,7 +417,7 @@ def check(prop, tier, seed, into=None):
     benign = sum(1 for i, t in enumerate(alltraces) if t.get("drift") and i not in rejected)
     for t in alltraces[:2] + rres[:2]:
         v.sample({"cfg": t["cfg"], "path": t["path"][:12], "events": t["ev"][:8]})
-    v.assumptions += ["the lock type is the instrumented lock of the harness (one instance per placeholder, waiters resume only when it is free)",
+    v.assumptions += ["the lock type is the instrumented lock of the harness (one instance per placeholder, waiters resume only when it is free; with ExitSusp its release suspends once)",
                       "placeholders are identified by creation order (= creation order of their locks)"]
     vac = dict(label_counts)
     missing = [a for a in ["access", "await", "grant", "tick", "fail", "cancel", "del"] if not vac.get(a)]
